@@ -4,6 +4,7 @@ import (
 	"fmt"
 	"go/ast"
 	"go/types"
+	"regexp"
 	"strings"
 	"text/template/parse"
 
@@ -12,7 +13,7 @@ import (
 
 func init() { Registry["C10"] = runC10 }
 
-const explanationC10 = "Decides structural necessary conditions of C10: (R10.1) in protoBufMessageDef the field number printed for a field is rpcTag of the very attribute whose name and type are printed (object fields and oneof values); (R10.2) the gRPC validators visit every message/metadata attribute — no early exit from a loop that records errors, no stale search flag, validate* helpers wired with their result consumed; (R10.3) the runtime handlers call the endpoint only after a successful decode, with the decoded request, encode only after a successful endpoint call, and send headers/trailers only after a successful encode; decode failures that are not service errors become InvalidArgument; (R10.4) the streaming keywords of the generated service definition are driven by literals equal to expr's stream-kind constants, request side = client|bidirectional, response side = server|bidirectional; (R10.5) gRPC status mapping tables and ErrorResponse field fidelity (shared with C18); (R10.6) the string⇄typed conversion templates used for metadata use the strconv family, bit size and cast that belong to each primitive type; (R10.7) set/memo maps of the proto generators are tested and filled under the same key (no message emitted twice), and template range bodies use their element; (R10.8) encoders guard fields against nil only; (R10.9) the client invoker attaches the metadata after encoding and before the remote call; (R10.10) the required flag is propagated for every element of a Finalize loop. NOT decided: proto3 well-formedness of the generated file (no protoc here; parsing generated text is execution of the generator) and the conversion round trip of values."
+const explanationC10 = "Decides structural necessary conditions of C10: (R10.1) in protoBufMessageDef the field number printed for a field is rpcTag of the very attribute whose name and type are printed (object fields and oneof values); (R10.2) the gRPC validators visit every message/metadata attribute — no early exit from a loop that records errors, no stale search flag, validate* helpers wired with their result consumed; (R10.3) the runtime handlers call the endpoint only after a successful decode, with the decoded request, encode only after a successful endpoint call, and send headers/trailers only after a successful encode; decode failures that are not service errors become InvalidArgument; (R10.4) the streaming keywords of the generated service definition are driven by literals equal to expr's stream-kind constants, request side = client|bidirectional, response side = server|bidirectional; (R10.5) gRPC status mapping tables and ErrorResponse field fidelity (shared with C18); (R10.6) the string⇄typed conversion templates used for metadata use the strconv family, bit size and cast that belong to each primitive type; (R10.7) set/memo maps of the proto generators are tested and filled under the same key (no message emitted twice), and template range bodies use their element; (R10.8) encoders guard fields against nil only; (R10.9) the client invoker attaches the metadata after encoding and before the remote call; (R10.10) the required flag is propagated for every element of a Finalize loop. (R10.11) every metadata accessor of the gRPC encoder and decoder templates is keyed by the mapped key (.Name). NOT decided: proto3 well-formedness of the generated file (no protoc here; parsing generated text is execution of the generator) and the conversion round trip of values."
 
 func runC10(c *an.Ctx) string {
 	r101FieldNumbers(c)
@@ -26,6 +27,7 @@ func runC10(c *an.Ctx) string {
 	encoderNilGuards(c, "R10.8", "grpc/codegen/templates/request_encoder.go.tpl", "grpc/codegen/templates/response_encoder.go.tpl")
 	r10InvokeOrder(c)
 	requiredPropagationRule(c, "R10.10", "expr")
+	r1011MetadataKeys(c, "R10.11")
 	return explanationC10
 }
 
@@ -458,4 +460,36 @@ func r10InvokeOrder(c *an.Ctx) {
 		}
 	}
 	c.Check(ok, rule, f.Name+"#encode≺attach≺call", f.Decl.Pos(), "every path from the request encoder to the remote call attaches the metadata to the outgoing context in between", "a path runs from the request encoder to the remote call without attaching the metadata set to the outgoing context afterwards: metadata the encoder produced does not travel")
+}
+
+// r1011MetadataKeys (R10.11): gRPC metadata travels under the mapped key of the attribute (MetadataData.Name), on the
+// writing side (md.Append) and on the reading side (md.Get) of both directions. Every metadata accessor of the four
+// gRPC encoder/decoder templates is keyed by the Name field of the range element (or of its Metadata member), never
+// by AttributeName, VarName or FieldName: with a key that differs on the two sides a mapped attribute
+// ("ids:x-ids") is written under one name and looked for under another.
+func r1011MetadataKeys(c *an.Ctx, rule string) {
+	re := regexp.MustCompile(`\.(Append|Get|Set)\((?:ctx, )?\{\{\s*printf "%q" ((?:\.\w+)+)\s*\}\}`)
+	sites := 0
+	for _, file := range []string{"request_encoder.go.tpl", "request_decoder.go.tpl", "response_encoder.go.tpl", "response_decoder.go.tpl"} {
+		t, err := c.TplFile("grpc/codegen/templates/" + file)
+		if err != nil {
+			c.Add(an.Obligation{Rule: rule, Construct: file, Status: an.LOST, Detail: err.Error()})
+			continue
+		}
+		var probs []string
+		for ln, line := range strings.Split(t.Src, "\n") {
+			for _, m := range re.FindAllStringSubmatch(line, -1) {
+				sites++
+				if m[2] != ".Name" && m[2] != ".Metadata.Name" {
+					probs = append(probs, fmt.Sprintf("line %d: metadata %s is keyed by %s instead of the mapped key (.Name)", ln+1, m[1], m[2]))
+				}
+			}
+		}
+		if len(probs) > 0 {
+			c.Failf(rule, "grpc/codegen/templates/"+file+"#metadata-keys", 0, "%s: writer and reader disagree for an attribute mapped to a differently named metadata key", strings.Join(probs[:min(3, len(probs))], " | "))
+		} else {
+			c.Okf(rule, "grpc/codegen/templates/"+file+"#metadata-keys", "every metadata accessor is keyed by the mapped key")
+		}
+	}
+	c.Floor(rule, sites, 20, "metadata accessors keyed by a template field")
 }
